@@ -327,7 +327,7 @@ pub fn extract_tls_signature_from_client_hello(
         .filter(|v| !TLS_GREASE_VALUES.contains(v))
         .max()
         .map(|&v| tls_version_from_code(v))
-        .unwrap_or_else(|| determine_tls_version(&client_hello.version, &extensions));
+        .unwrap_or_else(|| determine_tls_version(&client_hello.version, &[]));
 
     Ok(Signature {
         version,
